@@ -176,6 +176,7 @@ func runCase(lines [][]string) []lineOut {
 	var (
 		w        *world
 		initFail string
+		cl       *client
 	)
 	defer func() {
 		if w != nil {
@@ -274,6 +275,59 @@ func runCase(lines [][]string) []lineOut {
 				continue
 			}
 			out = append(out, judge(sn))
+		case "dseq":
+			// dseq <type> <ns> <labels> <ips> <meta>: the proxy whose delta-xDS client is tracked through the `step` lines
+			// that follow; this line is its initial full push
+			if w == nil && initFail == "" {
+				w, initFail = buildWorld(mesh)
+				quiet.Silence()
+			}
+			if initFail != "" {
+				out = append(out, lineOut{initFail + " | -", skip})
+				continue
+			}
+			p := parsePush(f[:6])
+			var (
+				sn   *snapshot
+				px   *model.Proxy
+				fail string
+			)
+			fail = guarded("setup", 20e9, func() { px = w.proxy(p) })
+			if fail == "" {
+				sn, fail = w.generate(px)
+			}
+			if fail != "" {
+				out = append(out, lineOut{fail + " | -", skip})
+				continue
+			}
+			cl = &client{px: px, sn: sn}
+			out = append(out, judge(sn))
+		case "step":
+			// step <create|update|delete> <Kind> <ns> <name> <ts> <labels> <specJSON> <muts>: change the store of the running
+			// server, push to the tracked client, judge its merged state
+			if cl == nil || w == nil || len(f) < 9 {
+				out = append(out, lineOut{"ok", skip})
+				continue
+			}
+			c := parseCfg(f[1:])
+			var (
+				key  model.ConfigKey
+				res  string
+				fail string
+			)
+			fail = guarded("step-store", 20e9, func() { key, res = w.applyStep(f[1], c) })
+			if fail == "" && (res == "noop" || res == "undecodable" || res == "store-error") {
+				out = append(out, lineOut{"ok", skip})
+				continue
+			}
+			if fail == "" {
+				fail = w.stepPush(cl, key)
+			}
+			if fail != "" {
+				out = append(out, lineOut{fail + " | -", skip})
+				continue
+			}
+			out = append(out, judge(cl.sn))
 		default:
 			out = append(out, lineOut{"bad-op", skip})
 		}
@@ -344,6 +398,20 @@ func shrinkOne(lines [][]string, class string, deep bool, deadline time.Time) (r
 	if !fails(body) {
 		return lines, false
 	}
+	// a push sequence is kept only if the failure needs it: try the store state after k steps as a plain case (objects
+	// loaded up front, the tracked proxy gets an ordinary full push)
+	nsteps := 0
+	for _, l := range body {
+		if l[0] == "step" {
+			nsteps++
+		}
+	}
+	for k := 0; k <= nsteps && nsteps > 0 && time.Now().Before(deadline); k++ {
+		if cand := flattenSeq(body, k); fails(cand) {
+			body = cand
+			break
+		}
+	}
 	chunk := len(body) / 2
 	if chunk < 1 {
 		chunk = 1
@@ -408,6 +476,61 @@ func shrinkOne(lines [][]string, class string, deep bool, deadline time.Time) (r
 		}
 	}
 	return append([][]string{head}, body...), time.Now().Before(deadline)
+}
+
+// flattenSeq replaces the push sequence of a case by the state of the config store after its first k steps: the objects
+// become ordinary cfg lines, `dseq` an ordinary `push`, the remaining steps are dropped.
+func flattenSeq(body [][]string, k int) [][]string {
+	type ent struct {
+		key  string
+		line []string
+	}
+	var pre, pushes [][]string
+	var cfgs []ent
+	find := func(key string) int {
+		for i := range cfgs {
+			if cfgs[i].key == key {
+				return i
+			}
+		}
+		return -1
+	}
+	seen := 0
+	for _, l := range body {
+		switch l[0] {
+		case "cfg":
+			if len(l) > 3 {
+				cfgs = append(cfgs, ent{l[1] + " " + l[2] + " " + l[3], l})
+			}
+		case "push", "dpush":
+			pushes = append(pushes, l)
+		case "dseq":
+			pushes = append(pushes, append([]string{"push"}, l[1:]...))
+		case "step":
+			seen++
+			if seen > k || len(l) < 9 {
+				continue
+			}
+			key := l[2] + " " + l[3] + " " + l[4]
+			i := find(key)
+			switch {
+			case l[1] == "delete" && i >= 0:
+				cfgs = append(cfgs[:i:i], cfgs[i+1:]...)
+			case l[1] == "delete":
+			case i >= 0:
+				cfgs[i].line = append([]string{"cfg"}, l[2:]...)
+			default:
+				cfgs = append(cfgs, ent{key, append([]string{"cfg"}, l[2:]...)})
+			}
+		default:
+			pre = append(pre, l)
+		}
+	}
+	out := append([][]string{}, pre...)
+	for _, c := range cfgs {
+		out = append(out, c.line)
+	}
+	return append(out, pushes...)
 }
 
 func admission(c cfgDesc) string {
